@@ -171,59 +171,59 @@ var _ = types.Typ
 // eofProvenance: io.EOF leaves messageReader.Read only at the true end of the message or for a stale reader.
 func (rd *reader) eofProvenance(rule string) {
 	c, r := rd.c, rd.c.R
-		fn := rd.mrRead
-		ok, why := true, "every possibly-io.EOF return is at the true end of the message or for a stale reader"
-		n := 0
-		opts := core.Opts{Unroll: 0, RecordLoads: true, Inline: rd.inl()}
-		c.explore(rule, fn, opts, func(p *core.Path) {
-			if p.End != core.EndReturn || len(p.Results) != 2 {
-				return
-			}
-			e := p.Results[1]
-			if !c.mayBeEOF(e) {
-				return
-			}
-			n++
-			if !isEOFLoad(e) && refutedEOF(p, e) {
-				return
-			}
-			// stale reader: literal (r == c.messageReader) false
-			stale := hasLit(p, len(p.Lits), false, func(x *core.Term) bool {
-				if x.Kind != core.KEq {
-					return false
-				}
-				_, a := fieldLoad(x.Args[0], rd.msgReader)
-				_, b := fieldLoad(x.Args[1], rd.msgReader)
-				return a || b
-			})
-			if stale {
-				return
-			}
-			// true end: current readRemaining known <= 0 and current readFinal known true
-			var rem, fin *core.Term
-			for i := range p.Events {
-				ev := &p.Events[i]
-				if ev.Kind == core.EvLoad || ev.Kind == core.EvStore {
-					if isFieldAddr(ev.Addr, rd.readRemaining) {
-						rem = ev.Val
-					}
-					if isFieldAddr(ev.Addr, rd.readFinal) {
-						fin = ev.Val
-					}
-				}
-			}
-			remDone := rem != nil && (hasLit(p, len(p.Lits), false, func(x *core.Term) bool {
-				z, isC := x.Args0Int()
-				return x.Kind == core.KLt && isC && z == 0 && x.Args[1] == rem
-			}) || func() bool { v, isC := rem.Int64(); return isC && v <= 0 }())
-			finSeen := fin != nil && (hasLit(p, len(p.Lits), true, func(x *core.Term) bool { return x == fin }) || func() bool { b, isB := fin.BoolVal(); return isB && b }())
-			if !(remDone && finSeen) {
-				ok = false
-				why = "the return at " + c.P.Pos(p.Ret.Pos()) + " can yield io.EOF (" + e.String() + ") although the message is not at its true end (bytes remaining <= 0: " + yn(remDone) + ", final frame seen: " + yn(finSeen) + "): a truncated message is reported complete"
-			}
-		})
-		if n == 0 {
-			ok, why = false, "no possibly-EOF return found in messageReader.Read (rule blind)"
+	fn := rd.mrRead
+	ok, why := true, "every possibly-io.EOF return is at the true end of the message or for a stale reader"
+	n := 0
+	opts := core.Opts{Unroll: 0, RecordLoads: true, Inline: rd.inl()}
+	c.explore(rule, fn, opts, func(p *core.Path) {
+		if p.End != core.EndReturn || len(p.Results) != 2 {
+			return
 		}
-		r.Check(rule, shortFn(fn), "return-may-be-io.EOF", fn.Pos(), ok, why)
+		e := p.Results[1]
+		if !c.mayBeEOF(e) {
+			return
+		}
+		n++
+		if !isEOFLoad(e) && refutedEOF(p, e) {
+			return
+		}
+		// stale reader: literal (r == c.messageReader) false
+		stale := hasLit(p, len(p.Lits), false, func(x *core.Term) bool {
+			if x.Kind != core.KEq {
+				return false
+			}
+			_, a := fieldLoad(x.Args[0], rd.msgReader)
+			_, b := fieldLoad(x.Args[1], rd.msgReader)
+			return a || b
+		})
+		if stale {
+			return
+		}
+		// true end: current readRemaining known <= 0 and current readFinal known true
+		var rem, fin *core.Term
+		for i := range p.Events {
+			ev := &p.Events[i]
+			if ev.Kind == core.EvLoad || ev.Kind == core.EvStore {
+				if isFieldAddr(ev.Addr, rd.readRemaining) {
+					rem = ev.Val
+				}
+				if isFieldAddr(ev.Addr, rd.readFinal) {
+					fin = ev.Val
+				}
+			}
+		}
+		remDone := rem != nil && (hasLit(p, len(p.Lits), false, func(x *core.Term) bool {
+			z, isC := x.Args0Int()
+			return x.Kind == core.KLt && isC && z == 0 && x.Args[1] == rem
+		}) || func() bool { v, isC := rem.Int64(); return isC && v <= 0 }())
+		finSeen := fin != nil && (hasLit(p, len(p.Lits), true, func(x *core.Term) bool { return x == fin }) || func() bool { b, isB := fin.BoolVal(); return isB && b }())
+		if !(remDone && finSeen) {
+			ok = false
+			why = "the return at " + c.P.Pos(p.Ret.Pos()) + " can yield io.EOF (" + e.String() + ") although the message is not at its true end (bytes remaining <= 0: " + yn(remDone) + ", final frame seen: " + yn(finSeen) + "): a truncated message is reported complete"
+		}
+	})
+	if n == 0 {
+		ok, why = false, "no possibly-EOF return found in messageReader.Read (rule blind)"
 	}
+	r.Check(rule, shortFn(fn), "return-may-be-io.EOF", fn.Pos(), ok, why)
+}
